@@ -95,6 +95,8 @@ class PluginExec:
             opened = True
         mc = self.open[addr]
         mc['msgs'] += 1
+        if spec['name'] == 'set_app_id' and spec['args'] and spec['args'][0][0] == 's' and spec['args'][0][1]:
+            mc['app_id'] = spec['args'][0][1]      # `connection X` falls back to the app id when no connection is named X
         nrec = len(self.drv.ctl.all_messages)
         stopped = self.drv.deliver(spec)
         out = self._new_out(n_out)
@@ -181,13 +183,14 @@ class PluginExec:
             if arg == 'all':
                 self.sel = None
             else:
-                for mc in self.all:
-                    if mc['name'].lower() == arg.lower():
-                        self.sel = mc['name']
-                        sw = [l for l in self._new_out(n_out) if l.startswith('Switched to connection ')]
-                        if sw != ['Switched to connection ' + mc['name']]:
-                            res.bad('connection-command-selects-other', '`connection %s` answered %r, the connection of that name is %s' % (arg, sw, mc['name']))
-                        break
+                target = next((mc for mc in self.all if mc['name'].lower() == arg.lower()), None)
+                if target is None:
+                    target = next((mc for mc in self.all if mc.get('app_id') and mc['app_id'].lower() == arg.lower()), None)
+                if target is not None:
+                    self.sel = target['name']
+                    sw = [l for l in self._new_out(n_out) if l.startswith('Switched to connection ')]
+                    if sw != ['Switched to connection ' + target['name']]:
+                        res.bad('connection-command-selects-other', '`connection %s` answered %r, it denotes %s (by name first, then by app id)' % (arg, sw, target['name']))
         if cmd == 'quit':
             self.quit = True
         if self.check_c10:
